@@ -55,7 +55,7 @@ Example C10_example :
   ~ In (AuthCall 1 "plain" (Some 1) "none") (rr_trace (handle_channel s_repaired w_conf_tls_only w_oracle [w_new ""; w_auth])).
 Proof. split; [reflexivity|]. vm_compute. intros H. repeat (destruct H as [H|H]; [discriminate|]). exact H. Qed.
 
-(* ---- the configured policy (server.go: ServerBuilder.EncryptionOptions; Model H) ---- *)
+(* ---- the configured policy (server.go: ServerBuilder.EncryptionOptions; Model J) ---- *)
 (* The encryption options of a builder are those of its last EncryptionOptions call (an empty list panics and
    changes nothing), else the defaults; never empty. *)
 Theorem C10_builder_policy_is_the_last_call : forall ops,
